@@ -486,6 +486,22 @@ fn structure_mutants(m: &BytecodeModule, rng: &mut Rng) -> Vec<(String, Bytecode
         m3.sections.push(dup);
         out.push((format!("duplicate-section:{:#x}", m.sections[i].id), m3));
     }
+    // amplification: small tables that reference each other many times - one reference with a long index segment,
+    // named again and again by a task's FB list (every index is in bounds, so the container validates)
+    for (n, reps) in [(200usize, 200usize), (1500, 1500)] {
+        let mut m2 = m.clone();
+        let mut new_ref = None;
+        if let Some(SectionData::RefTable(t)) = m2.section_mut(SectionId::RefTable) {
+            t.entries.push(RefEntry { location: RefLocation::Global, owner_id: 0, offset: 0, segments: vec![RefSegment::Index(vec![0; n])] });
+            new_ref = Some(t.entries.len() as u32 - 1);
+        }
+        if let (Some(idx), Some(SectionData::ResourceMeta(r))) = (new_ref, m2.section_mut(SectionId::ResourceMeta)) {
+            if let Some(task) = r.resources.iter_mut().flat_map(|res| res.tasks.iter_mut()).next() {
+                task.fb_ref_idx = vec![idx; reps];
+                out.push((format!("amplify:ref-index-{n}-x-fb-list-{reps}"), m2));
+            }
+        }
+    }
     out
 }
 
